@@ -1566,6 +1566,13 @@ class Machine:
                 if v.term and v.term[0] in ("E", "Ekin", "Etot"):
                     return False
             return Opaque("isnan")
+        if full in ("numpy.array", "numpy.copy") and len(args) == 1 and set(kwargs) <= {"dtype", "copy", "order"}:
+            # np.array(x) / np.copy(x) copy: a snapshot of the component's current version (like x.copy())
+            v = args[0]
+            if isinstance(v, Ref) and v.comp is not None and v.obj in self.heap:
+                return V(self.heap[v.obj].get(v.comp))
+            if isinstance(v, V):
+                return v
         if full == "numpy.nan":
             return NAN
         if full == "numpy.arange" and len(args) == 1:
